@@ -33,7 +33,7 @@ fn node_b<I: Interface + 'static>(own: u16, link: I, handlers: &[&[u64]], remain
         ids.push(id); idmap.insert(label, id);
     }
     let mut rets = vec![];
-    for _ in 0..budget {
+    for _ in 0..(budget + 8) {
         let was_empty = remaining() == 0;
         reset();
         let r = catch_unwind(AssertUnwindSafe(|| proto.tick()));
@@ -115,7 +115,7 @@ pub fn gen_e2e(r: &mut Rng, thorough: bool, cx: &mut Ctx) {
             let ne = r.range(1, 8); l.push(ne);
             for _ in 0..ne {
                 let kind = r.below(16);
-                let md = if r.chance(1, 6) { 300 } else { 24 }; let mut e = gen_event(r, kind, md);
+                let md = if r.chance(1, 40) { 2400 } else if r.chance(1, 6) { 300 } else { 24 }; let mut e = gen_event(r, kind, md);
                 // steer the receiver address: B's own address, broadcast, A's own address, or elsewhere
                 if kind != 1 && kind != 5 { e[1] = match r.below(6) { 0 | 1 | 2 => own_b as u64, 3 => 0xffff, 4 => own_a as u64, _ => r.u16b() }; }
                 l.push(e.len() as u64); l.extend(e);
